@@ -13,11 +13,19 @@ Inductive uarg :=
   | URange (s e : option Z) (v : option Z)
   | UMixed (p : period) (s e : option Z) (v : option Z).
 
+(** one step on a live tree: read it at the query dates, or edit a leaf through the nodes *)
+Inductive top :=
+  | TRead
+  | TUpd (path : list pstep) (u : uarg).
+
 Inductive case :=
   (* construct from data, snapshot; then after each update snapshot again *)
   | KParam (wrapped : bool) (entries : list (Z * yentry Z)) (ups : list uarg) (queries : list Z)
   (* a tree evaluated at each query date *)
-  | KTree (t : tree) (queries : list Z).
+  | KTree (t : tree) (queries : list Z)
+  (* a tree read at the query dates, then edited through its nodes (a call of update on
+     the leaf at [path]) and read again at the same dates, any number of times *)
+  | KTreeOps (t : tree) (ops : list top) (queries : list Z).
 
 (** history of a leaf of a generated tree (only loadable entries are generated there) *)
 Definition yparam (entries : list (Z * yentry Z)) : hist Z :=
@@ -56,6 +64,21 @@ Fixpoint oview (v : view) : obs :=
   | VNode ch => OL [OS "node"; OL (map (fun nc => OL [OS (fst nc); oview (snd nc)]) ch)]
   end.
 
+Definition read_tree (t : tree) (qs : list Z) : obs :=
+  OL (map (fun d => oopt oview (at_instant t d)) qs).
+
+(** a refused update leaves the tree as it was *)
+Fixpoint tree_steps (t : tree) (ops : list top) (qs : list Z) : list obs :=
+  match ops with
+  | [] => []
+  | TRead :: r => read_tree t qs :: tree_steps t r qs
+  | TUpd path u :: r =>
+      match edit_at path (fun h => run_update h u) t with
+      | Ok t' => OS "ok" :: tree_steps t' r qs
+      | Err e => OErr e :: tree_steps t r qs
+      end
+  end.
+
 Definition run (c : case) : obs :=
   match c with
   | KParam w entries ups qs =>
@@ -63,5 +86,6 @@ Definition run (c : case) : obs :=
       | Err e => OErr e
       | Ok h => OL (snapshot h qs :: steps h ups qs)
       end
-  | KTree t qs => OL (map (fun d => oopt oview (at_instant t d)) qs)
+  | KTree t qs => read_tree t qs
+  | KTreeOps t ops qs => OL (tree_steps t ops qs)
   end.
